@@ -113,3 +113,10 @@ Proof.
   - destruct (main_mutual_cfg rf f Hf false) as [_ HP]. apply (HP T); assumption.
   - intros a b Hab. constructor. exact Hab.
 Qed.
+
+(* the three MODEL pipelines, with the concrete re-rendering of go-zero's YAML and TOML paths *)
+Lemma three_pipelines_lemma : forall T d,
+  fam_fields T = true -> leaves_ok rf_go d = true -> float_positions_ok T d = true ->
+  rsim gsim (load_doc rf_go T FYaml d) (load_doc rf_go T FJson d) /\
+  rsim gsim (load_doc rf_go T FToml d) (load_doc rf_go T FJson d).
+Proof. intros T d Hf Hl Hp. split; apply load_sim; auto; discriminate. Qed.
